@@ -9,9 +9,13 @@
 (* Dirent::try_from_bytes(buf[offset..]) needs HeaderSize = 18 bytes, advances by d_reclen.   *)
 (* Early (constant, 0 in the code) is the refill slack: a model of the seeded mutant          *)
 (* "refill Early bytes early" makes TLC show the lost entry.                                  *)
+(* EodSlack (constant, 0 in the code) models the "skip the confirming getdents" shortcut:     *)
+(* with 256 TLC shows a 256-byte batch followed by a 264..280-byte record losing it.           *)
+(* NameLens is chosen so that record sizes sweep the boundary: 24, 32, 120, 208, 232 .. 280.   *)
 (* Property: the entries yielded are exactly the directory, each once, in order.              *)
 EXTENDS Integers, Sequences, TLC
-CONSTANTS NameLens, MaxEntries, Window, Early
+CONSTANTS NameLens, MaxEntries, Window, Early,
+          EodSlack     \* 0 in the code; s > 0 models "after a batch that leaves >= s bytes free, assume end of directory"
 VARIABLES dir, pos, buf, offset, readSize, eod, out, done
 vars == <<dir, pos, buf, offset, readSize, eod, out, done>>
 RecLen(l) == ((19 + l + 1 + 7) \div 8) * 8
@@ -38,7 +42,8 @@ NextEntry ==
                  ELSE \* refill, then parse the first record of the new window in the same call
                       /\ buf' = got /\ pos' = pos + Len(got) /\ readSize' = Bytes(dir, got)
                       /\ offset' = RecLen(dir[got[1]]) /\ out' = Append(out, got[1])
-                      /\ UNCHANGED <<dir, eod, done>>
+                      /\ eod' = (EodSlack > 0 /\ Window - Bytes(dir, got) >= EodSlack)
+                      /\ UNCHANGED <<dir, done>>
        ELSE LET e == At(dir, buf, offset, 0) IN
             /\ e # 0 /\ readSize - offset >= 18            \* try_from_bytes finds a header
             /\ out' = Append(out, e) /\ offset' = offset + RecLen(dir[e])
